@@ -26,7 +26,7 @@ ASSUMPTIONS = ["the integral itself is sedfitter's own Filter.rebin used in isol
                'fit agreement is judged by model name within a first-order perturbation bound; models whose prediction is within 10 delta of a limit point are skipped']
 PROBES = ['crash_rerun', 'crash_left_partial_file', 'subset_calls', 'overwrite_call', 'mixed_grid', 'v1_v2_compared', 'fits_compared',
           'multi_aperture', 'gz_package', 'subdir_package', 'f4_storage', 'limit_skipped', 'tie_group', 'singular_skipped',
-          'consumer_between_convolver_calls']
+          'consumer_between_convolver_calls', 'remove_resolved']
 
 
 def budgets(tier):
@@ -80,6 +80,7 @@ def generate(rng, tier, idx):
     for i in range(rng.randint(1, 3)):
         steps.append({'op': 'fit', 'source': gen_source(rng, nf, 'src%d' % i, flags=(0, 1, 1, 1, 1, 2, 3, 9), min_fit=min(2, nf))})
     return {'world': w, 'formats': formats, 'listing_seed': rng.randrange(1 << 30), 'theta_seed': rng.randrange(1 << 30),
+            'remove_resolved': w['apdep'] and rng.random() < 0.4,      # a documented Fitter option; must act alike in every configuration
             'av_range': [0.0, round(rng.uniform(2, 30), 2)], 'drange': [1.0, rng.choice([1.0, 1.5, 2.5])], 'steps': steps}
 
 
@@ -320,11 +321,13 @@ def _execute(sc, sim, out):
         kw = pipe.fitter_kwargs(W, sc)
         Fs = {}
         for key, d, mm in (('v1', dirs[1], True), ('v2', dirs[2], False), ('v2m', dirs[2], True)):
-            r = pipe.call(pipe.Fitter, names, ap, d, use_memmap=mm, **kw)
+            r = pipe.call(pipe.Fitter, names, ap, d, use_memmap=mm, remove_resolved=bool(sc.get('remove_resolved')), **kw)
             if r[0] != 'ok':
                 out.violate('fitter-failed', 'Fitter on %s raised %s: %s' % (key, pipe.exc_name(r), r[1]), key='%s/%s@%s' % (key, pipe.exc_name(r), pipe.where(r[1]) if r[0] == 'exc' else ''))
                 break
             Fs[key] = r[1]
+        if sc.get('remove_resolved'):
+            out.probe('remove_resolved')
         if not out.violations:
             dstore = 2.0 ** -23 / np.log(10) * (2 if spec['dtype'] == 'f4' else 1)
             d12 = 1e-12 if spec['dtype'] == 'f8' else 2e-5 / np.log(10)
@@ -416,6 +419,8 @@ def _execute(sc, sim, out):
 
 
 def lowerings(sc, viol=None):
+    if sc.get('remove_resolved'):
+        yield dict(sc, remove_resolved=False)
     for i, st in enumerate(sc['steps']):
         if st['op'] == 'convolve':
             if st['crash_at'] is not None:
